@@ -55,7 +55,7 @@ func (d *Dumper) AddRaw(label, s string) {
 func skipType(t reflect.Type) bool {
 	p := t.PkgPath()
 	switch {
-	case p == "sync" || p == "sync/atomic" && t.Name() != "Value":
+	case p == "sync" || (p == "sync/atomic" && t.Name() != "Value"):
 		return true
 	case strings.HasSuffix(p, "tokenized/logger"):
 		return true
